@@ -20,6 +20,7 @@ type Env struct {
 	st    *state
 	old   *state
 	look  func(name string) (Val, bool)
+	lookSt func(name string, st *state) (Val, bool) // names whose value depends on the state (captured variables)
 	bound map[string]Val
 	pkg   *types.Package
 	quant bool // set when a quantifier or spec function was used
@@ -210,6 +211,11 @@ func (e *Env) ident(name string) Val {
 		return Val{T: types.Typ[types.UntypedNil], S: []string{"0"}}
 	}
 	if e.look != nil {
+		if e.lookSt != nil {
+			if v, ok := e.lookSt(name, e.st); ok {
+				return v
+			}
+		}
 		if v, ok := e.look(name); ok {
 			return v
 		}
@@ -851,6 +857,59 @@ func (e *Env) callExpr(n *ast.CallExpr) Val {
 		k = e.keyOf(mi, k)
 		dom := e.arr(mi.domSite, SArr(mi.kSort, SBool))
 		return boolVal(and(not(eq(m.S[0], "0")), sel(sel(dom, m.S[0]), k.S[0])))
+	case "sent", "closed", "lastsent":
+		// ghost state of a channel: number of values sent on it so far, whether it was closed, the last value sent
+		argc(1)
+		ch := e.eval(n.Args[0])
+		ct, ok := ch.T.Underlying().(*types.Chan)
+		if !ok {
+			specErrf("%s: not a channel", name)
+		}
+		switch name {
+		case "sent":
+			return intVal(sel(e.arr(chanCountSite, SInt), ch.S[0]))
+		case "closed":
+			return boolVal(sel(e.arr(chanClosedSite, SBool), ch.S[0]))
+		}
+		v := Val{T: ct.Elem()}
+		for k, l := range leavesOf(ct.Elem(), "elem") {
+			v.S = append(v.S, sel(e.arr(chanLastSite(ct.Elem(), k), l.Sort), ch.S[0]))
+		}
+		return v
+	case "samekey":
+		// samekey(a, b): two strings used as map keys are the same key (equal contents)
+		argc(2)
+		a, b := e.eval(n.Args[0]), e.eval(n.Args[1])
+		mi := &mapInfo{strKey: true}
+		return boolVal(eq(e.keyOf(mi, a).S[0], e.keyOf(mi, b).S[0]))
+	case "forallstr", "existsstr":
+		// forallstr(k, P) / existsstr(k, P): k ranges over all strings (as map keys: over all key identities)
+		argc(2)
+		id, ok := n.Args[0].(*ast.Ident)
+		if !ok {
+			specErrf("%s: first argument must be an identifier", name)
+		}
+		e.u.ensureStrKeys()
+		bv := quoteSym("q!" + id.Name)
+		p, ln := app(strptrFn, bv), app(strlenFn, bv)
+		kv := Val{T: types.Typ[types.String], S: []string{p, ln}, KeyID: bv}
+		typing := and(eq(app(stridFn, p, ln), bv), le("0", ln), le(ln, "1099511627776"), le("0", p))
+		ne := e.withBound(id.Name, kv)
+		var facts []string
+		ne.qdepth = e.qdepth + 1
+		ne.qfacts = &facts
+		body := ne.evalBool(n.Args[1])
+		e.quant = true
+		tf := and(append(dedup(facts), typing)...)
+		if name == "forallstr" {
+			if e.assume {
+				body = and(tf, body)
+			} else {
+				body = implies(tf, body)
+			}
+			return boolVal(fmt.Sprintf("(forall ((%s Int)) %s)", bv, body))
+		}
+		return boolVal(fmt.Sprintf("(exists ((%s Int)) (and %s %s))", bv, tf, body))
 	case "oncedone":
 		// oncedone(o): the sync.Once value o (a field or variable, not a copy) has already run its function
 		argc(1)
